@@ -168,6 +168,35 @@ REGISTRY = {
         "assumptions": ["the bound checked is 1.5 s (15 flush intervals), generous enough for this sandbox under 16-way parallel load",
                         "a woken worker is scheduled and its device calls return: runtime behaviour, observed not proved"],
     },
+    "C20": {
+        "title": "the safe API is memory safe under every interleaving (partial)",
+        "teq": [
+            {"engine": "inflight", "quick": {"n": 20000}, "thorough": {"tier": "thorough"}, "oracle": False, "mismatch_is_failure": True, "timeout": 3400,
+             "nontrivial": lambda case, res: "L" in res and "F" in res,
+             "distinct_key": lambda case, res: case,
+             "what": "io.rs InFlightBuffers driven through hook H8 with drop-tracking tokens in the shape of batch_write_inner (push all, mark + submit each, a failed submission, completions in any order, missing or duplicated) vs Model.InFlight: which buffers are freed and which kept alive at the drop, and every mark_complete result"},
+            {"engine": "asanselftest", "quick": {}, "thorough": {}, "asan": True, "expect_asan_report": True, "oracle": False, "mismatch_is_failure": False,
+             "what": "self-test of the instrumentation: a deliberate heap out-of-bounds read in the harness must be reported by AddressSanitizer"},
+            {"engine": "conc", "quick": {"n": 60, "mode": "hist", "seedoff": 20}, "thorough": {"n": 1500, "mode": "hist", "seedoff": 20}, "asan": True, "oracle": True, "mismatch_is_failure": False, "timeout": 3400,
+             "nontrivial": lambda case, res: res == "lin=1", "distinct_key": lambda case, res: case,
+             "what": "C07 histories (controlled and free-running threads on shared keys, memory-only and persistent) " + 're-executed under AddressSanitizer (nightly toolchain, -Zsanitizer=address on the crate and the harness; child processes are the same instrumented binary): any sanitizer report or abnormal termination is the violation'},
+            {"engine": "race", "quick": {"n": 1, "seedoff": 20}, "thorough": {"n": 12, "seedoff": 20}, "asan": True, "oracle": True, "mismatch_is_failure": False, "timeout": 3400,
+             "nontrivial": lambda case, res: res == "ok", "distinct_key": lambda case, res: case[:300],
+             "what": "C08 races (readers incl. range scans against updates, deletes, TTL rewrites, flushes, retirement and reuse, cache eviction, io_uring and pwrite paths) " + 're-executed under AddressSanitizer (nightly toolchain, -Zsanitizer=address on the crate and the harness; child processes are the same instrumented binary): any sanitizer report or abnormal termination is the violation'},
+            {"engine": "seq", "quick": {"n": 1, "ops": 50, "seedoff": 20}, "thorough": {"n": 20, "ops": 120, "seedoff": 20}, "asan": True, "oracle": True, "mismatch_is_failure": False, "timeout": 3400,
+             "nontrivial": lambda case, res: res.count(" | ") >= 20, "distinct_key": lambda case, res: res,
+             "what": "C01 call sequences over every API spelling, expiry, cache, reopen and shutdown " + 're-executed under AddressSanitizer (nightly toolchain, -Zsanitizer=address on the crate and the harness; child processes are the same instrumented binary): any sanitizer report or abnormal termination is the violation'},
+            {"engine": "fault", "quick": {"n": 1, "faults": 2, "seedoff": 20}, "thorough": {"n": 3, "faults": 6, "seedoff": 20}, "asan": True, "oracle": True, "mismatch_is_failure": False, "timeout": 3400,
+             "nontrivial": lambda case, res: res.startswith("ok"), "distinct_key": lambda case, res: res,
+             "what": "C09 failed and interrupted device writes and fsyncs " + 're-executed under AddressSanitizer (nightly toolchain, -Zsanitizer=address on the crate and the harness; child processes are the same instrumented binary): any sanitizer report or abnormal termination is the violation'},
+            {"engine": "mutimg", "quick": {"bases": 1, "mutants": 6, "seedoff": 20}, "thorough": {"bases": 6, "mutants": 20, "seedoff": 20}, "asan": True, "oracle": True, "mismatch_is_failure": False, "timeout": 3400,
+             "nontrivial": lambda case, res: True, "distinct_key": lambda case, res: res,
+             "what": "C17 opens of damaged and forged device files " + 're-executed under AddressSanitizer (nightly toolchain, -Zsanitizer=address on the crate and the harness; child processes are the same instrumented binary): any sanitizer report or abnormal termination is the violation'},
+        ],
+        "nontrivial_rule": "inflight: a case is one event sequence, non-trivial when the drop both freed and kept alive a buffer; sanitizer runs: a case is one case of the re-executed engine",
+        "assumptions": ["AddressSanitizer instruments the crate and the harness, not the prebuilt standard library and C dependencies; it reports what the explored executions touch, nothing more",
+                        "the kernel holds a reference from the submission push to the completion entry (ghost state of Model.InFlight)"],
+    },
     "C09": {
         "title": "I/O failures are reported, contained and never destroy durable data",
         "teq": [
@@ -298,6 +327,9 @@ def run_property(pid, eng, tier, seed, t0):
             proof_problems.append({"what": "forbidden declaration in the development", "log": "\n".join(audit)})
         rok, rout = vlib.build_runner()
         hok, hout = vlib.build_harness()
+        aok, aout = True, ""
+        if any(t.get("asan") for t in eng["teq"]):
+            aok, aout = vlib.build_harness_asan()
     prop = vlib.coq_property(pid)
     if not prop["ok"]:
         proof_problems.append({"what": "Properties/%s.v does not check or depends on a non-allow-listed axiom" % pid,
@@ -307,6 +339,8 @@ def run_property(pid, eng, tier, seed, t0):
     if not hok:
         # the harness does not compile against the working tree: correspondence cannot run
         proof_problems.append({"what": "harness does not build against /repo's working tree", "log": hout[-3000:]})
+    if not aok:
+        proof_problems.append({"what": "AddressSanitizer build of the harness failed", "log": aout[-3000:]})
 
     # ---------------- 2. correspondence ----------------
     total_cases = 0
@@ -321,10 +355,28 @@ def run_property(pid, eng, tier, seed, t0):
             args = dict(t.get(tier, t.get("quick", {})))
             args["seed"] = seed + int(args.pop("seedoff", 0))
             t1 = time.time()
+            if t.get("asan") and not aok:
+                continue
             try:
-                rc, so, se = vlib.run_harness(t["engine"], outdir, args, timeout=t.get("timeout", 3000))
+                rc, so, se = vlib.run_harness(t["engine"], outdir, args, timeout=t.get("timeout", 3000), asan=bool(t.get("asan")))
             except subprocess.TimeoutExpired:
                 rc, so, se = 124, "", "harness timed out"
+            if t.get("expect_asan_report"):
+                # self-test: a deliberate out-of-bounds read must be reported, otherwise the
+                # instrumentation is not active and the other sanitizer runs mean nothing
+                if "AddressSanitizer" not in se:
+                    corr_broken.append({"what": "AddressSanitizer self-test: a deliberate heap overflow was not reported (rc=%d)" % rc, "log": se[-1500:]})
+                else:
+                    teq_reports.append({"engine": t["engine"], "what": t["what"], "cases": 1, "mismatches": 0, "oracle_failures": 0,
+                                        "undecided_skipped": 0, "wall_s": round(time.time() - t1, 1), "distribution": {"asan_report_seen": 1}})
+                continue
+            if rc != 0 and t.get("asan") and "AddressSanitizer" in se:
+                i = se.find("AddressSanitizer")
+                concrete.append({"engine": t["engine"], "kind": "implementation violates the property on this input",
+                                 "why": "FAIL address-sanitizer-report " + " ".join(se[i:i + 160].split()),
+                                 "case": "%s %s" % (t["engine"], " ".join("%s=%s" % kv for kv in args.items())),
+                                 "report": se[max(0, i - 200):i + 6000]})
+                continue
             if rc != 0:
                 corr_broken.append({"what": "harness engine %s failed (rc=%d)" % (t["engine"], rc), "log": se[-3000:]})
                 continue
